@@ -1,6 +1,8 @@
 import MakoModel.Conc.Lemmas
 /-!
-Invariants behind `returns_complete`, `returns_fresh_partial`, `lru_bound_quiescent`, `renders_independent`.
+Generic invariants: "every template the system holds satisfies `P`" (`AllT`, used by `returns_complete` and
+`first_requests_compile_once`), the ghost registry of completed constructions (`BuiltOk`), what a step does to the
+clock / files / registry (`tstep_ghost`).
 -/
 namespace MakoModel.Conc
 
